@@ -350,9 +350,29 @@ func genScope(r *Rng, i int, tier string) string {
 		in.RE = nil
 		in.RF = fs
 	}
+	// how the files are written: mostly plain LF files, a third otherwise
+	if len(in.RE) > 0 || len(in.RF) > 0 {
+		nf := len(in.RF) + 1
+		for j := 0; j < nf; j++ {
+			switch k := r.Intn(100); {
+			case k < 55:
+				in.LE = append(in.LE, "nl")
+			case k < 75:
+				in.LE = append(in.LE, "nonl")
+			case k < 85:
+				in.LE = append(in.LE, "crlf")
+			case k < 93:
+				in.LE = append(in.LE, "crlfnonl")
+			case k < 97:
+				in.LE = append(in.LE, "blank")
+			default:
+				in.LE = append(in.LE, "emptylast")
+			}
+		}
+	}
 	D := 0
 	switch k := r.Intn(100); {
-	case k < 12:
+	case k < 18:
 		D = 0
 	case k < 55:
 		D = 1
@@ -362,6 +382,9 @@ func genScope(r *Rng, i int, tier string) string {
 		D = 3
 	}
 	in.T = genTree(r, D, r.Chance(25), plantsFor(&in))
+	if D == 0 && r.Chance(65) {
+		in.SP = true // the way the sources deliver a seed
+	}
 	if D > 0 && r.Chance(4) {
 		makeInconsistent(r, in.T, D)
 	}
